@@ -30,6 +30,7 @@ def main():
         d = os.path.join(SEEDS, n)
         meta = json.load(open(os.path.join(d, "meta.json")))
         props = [meta["property"]] + list(meta.get("also", []))
+        obsolete = bool(meta.get("obsolete"))
         a = sh(["git", "-C", REPO, "apply", os.path.join(d, "patch.diff")])
         if a.returncode != 0:
             rows.append((n, props[0], "PATCH DOES NOT APPLY", "")); missed += 1; continue
@@ -57,7 +58,11 @@ def main():
         meta["detected_by"] = f"{b[0]} quick check, {b[2]} leg" if b[1] else None
         meta["detected_line"] = b[4]
         json.dump(meta, open(os.path.join(d, "meta.json"), "w"), indent=1)
-        if not b[1]: missed += 1
+        if obsolete:
+            meta["detected"] = ("OBSOLETE (harmless on the current tree), reported: " + meta["detected"]) if b[1] else "OBSOLETE (harmless on the current tree): rightly not reported"
+            json.dump(meta, open(os.path.join(d, "meta.json"), "w"), indent=1)
+            if b[1]: missed += 1      # an alarm on a harmless change would be a false alarm
+        elif not b[1]: missed += 1
         rows.append((n, b[0], meta["detected"], b[2]))
         print(f"{n:60s} {b[0]} {meta['detected']:34s} {b[2]}", flush=True)
     dirty = sh(["git", "-C", REPO, "status", "--porcelain"]).stdout.strip()
